@@ -20,7 +20,8 @@ from concurrent.futures import ThreadPoolExecutor
 
 from harness.common import VERIF, enc, run_driver
 
-from insights.core import dr, hydration
+from insights.cleaner import Cleaner
+from insights.core import dr, filters, hydration
 from insights.core.context import ExecutionContext, HostContext, SerializedArchiveContext
 from insights.core.exceptions import CalledProcessError, ContentException
 from insights.core.plugins import datasource
@@ -247,6 +248,107 @@ def gen_world(rng, wid, tier, long_len=0, big=None):
     return {"id": wid, "host": host, "specs": specs, "seed": rng.getrandbits(32), "pool": pool}
 
 
+# ----------------------------------------------------------------------------- failing writers next to successful ones
+
+SECRET = "SECRETX"          # the redaction pattern of the cleaner used in the failure-frame archives
+
+
+def safe_line(rng, marker):
+    # nothing the cleaner's always-on password rule could touch; never the redaction pattern
+    return "%s %s %s" % (gen_word(rng, 3), marker, gen_word(rng, 4))
+
+
+def gen_frame_world(rng, wid):
+    """
+    k persisted components under a HostContext, destinations shared at random, a random subset failing AT
+    SERIALIZATION: empty content, empty after filtering (two registry points over one file with different
+    filters), empty after cleaning (every line redacted), CalledProcessError from load, destination that
+    cannot be opened (its parent is another component's data file / it is a directory by then).  Order of
+    persisting: sub-graph priorities, explicit dependencies, otherwise whatever the engine picks.
+    """
+    k = rng.choice([2, 3, 3, 4, 5, 6])
+    nslots = rng.choice([1, 1, 1, 2, 2])
+    slot_lines = [[safe_line(rng, "K%d" % (j % 3)) for j in range(rng.choice([3, 4, 6]))] for _ in range(nslots)]
+    specs = []
+    for i in range(k):
+        slot = rng.randrange(nslots)
+        t = rng.choice(["ffile", "ffile", "fcmd", "fds"])
+        mode = rng.choice(["ok", "ok", "ok", "ok", "empty", "clean", "loadfail", "filter-empty", "writeerr"])
+        share = rng.choice(["slot", "slot", "slot", "slot", "slot", "src", "src", "own"])
+        if mode == "loadfail" and t != "fcmd":
+            mode = "filter-empty" if t == "ffile" else "empty"
+        if mode == "filter-empty" and t != "ffile":
+            mode = "empty"
+        base = "slot%d" % slot if (share != "own" or mode == "writeerr") else "own%d" % i
+        if mode == "writeerr":
+            base += "/sub%d" % i
+        good = [safe_line(rng, "K%d" % (j % 3)) for j in range(rng.choice([3, 4, 5]))]
+        if rng.random() < 0.3:
+            good.append("")
+        lines = {"ok": good, "writeerr": good, "filter-empty": good, "loadfail": good, "empty": [],
+                 "clean": ["%s %s" % (SECRET, gen_word(rng)) for _ in range(rng.choice([1, 2, 3]))]}[mode]
+        sp = {"t": t, "name": "s%d" % i, "slot": slot, "mode": mode, "prio": rng.choice([0, 0, 1, 2, 3]), "fail": False}
+        if t == "fcmd":
+            sp["cmd"] = "/bin/echo f%d u%d" % (i, uniq())
+            sp["save_as"] = base
+            sp["out"] = "".join(l + "\n" for l in lines)
+            sp["fail"] = mode == "loadfail"
+        elif t == "fds":
+            sp["rel"] = "fds/e%d" % i
+            sp["save_as"] = "insights_commands/" + base
+            sp["lines"] = lines
+        else:
+            if share == "src" and mode in ("ok", "filter-empty"):
+                # the SAME source file collected by several registry points (different filters): one destination
+                sp["path"], sp["lines"], sp["save_as"] = "/f/slot%d.conf" % slot, slot_lines[slot], None
+            else:
+                sp["path"], sp["lines"] = "/f/own%d.conf" % i, lines
+                sp["save_as"] = rng.choice(["", "/"]) + "insights_commands/" + base
+            if mode == "filter-empty":
+                sp["filters"] = ["NOMATCH%d" % i]
+            elif mode in ("ok", "writeerr") and rng.random() < 0.5:
+                sp["filters"] = ["K%d" % rng.randrange(3)]
+        earlier = [x["name"] for x in specs if x["t"] in ("ffile", "fcmd")]
+        # (a filterable dependent would hand its filters down to the spec it depends on — C07's subject — so
+        #  only unfiltered specs are ordered by a dependency)
+        if t in ("ffile", "fcmd") and earlier and not sp.get("filters") and rng.random() < 0.4:
+            sp["after"] = rng.choice(earlier)        # forces "persisted after"
+        specs.append(sp)
+    if rng.random() < 0.5:
+        specs.reverse()                              # declaration order should not matter; vary it
+        names = [x["name"] for x in specs]
+        for x in specs:                              # `after` must name a spec built before
+            if x.get("after") and names.index(x["after"]) > names.index(x["name"]):
+                del x["after"]
+    return {"id": wid, "host": True, "frame": True, "specs": specs, "seed": rng.getrandbits(32), "pool": 0}
+
+
+def frame_counts(desc, obs, count, w):
+    """what the generated history contains (evidence): who fails, who shares, in which order"""
+    count("frame:sub-graphs sharing the broker=%d" % min(w.subgraphs, 4))
+    seen = {}            # destination -> list of (order, ok?)
+    for n, o in enumerate(obs):
+        for e in o["elems"]:
+            loc = expected_location(e["kind"], e["rel"], e["save_as"])
+            ok = not not_collected(desc, e)
+            count("frame:writer " + ("ok" if ok else "fails: " + ("write error" if e.get("writeerr") else o["sp"]["mode"])))
+            seen.setdefault(loc, []).append(ok)
+    for loc, oks in seen.items():
+        if len(oks) < 2:
+            continue
+        n_ok = sum(oks)
+        if n_ok >= 2:
+            count("frame:destination shared, >= 2 writers succeed (known finding's shape)")
+        elif n_ok == 1:
+            at = oks.index(True)
+            if any(not x for x in oks[at + 1:]):
+                count("frame:destination shared, failing writer AFTER the successful one")
+            if any(not x for x in oks[:at]):
+                count("frame:destination shared, failing writer BEFORE the successful one")
+        else:
+            count("frame:destination shared, every writer fails")
+
+
 # ----------------------------------------------------------------------------- implementation adapter
 
 class World(object):
@@ -264,6 +366,9 @@ class World(object):
         self.ds_calls = []
         self.slow = set()
         self.pool = desc.get("pool", 0)
+        self.frame = bool(desc.get("frame"))
+        self.ctx = None
+        self.cleaner = Cleaner(None, {"patterns": [SECRET]}, fqdn="c11.example.com") if self.frame else None
         self.build()
 
     def close(self):
@@ -285,6 +390,8 @@ class World(object):
                 world.calls.append(key)
                 if world.pool and key in world.slow:
                     time.sleep(0.03)         # runs inside the pool job (commands load lazily, in the serializer)
+                if key not in world.outputs:      # not one of the generated commands: the real `grep -F` of a filtered file spec
+                    return super(Ctx, self).check_output(cmd, timeout=timeout, keep_rc=keep_rc, env=env, signum=signum)
                 o = world.outputs[key]
                 if o[0] == "fail":
                     raise CalledProcessError(1, key, o[1])
@@ -297,11 +404,16 @@ class World(object):
             name, t = sp["name"], sp["t"]
             multi = t in ("glob", "foreach_collect", "foreach", "ccmd", "cfile", "dsmulti")
             raw = t in ("rawfile", "rawcmd")
-            points[name] = RegistryPoint(multi_output=multi, raw=raw)
+            points[name] = RegistryPoint(multi_output=multi, raw=raw, filterable=bool(sp.get("filters")),
+                                         prio=sp.get("prio", 0))
+            self.point_objs = points
             impls[name] = self.impl_for(sp, impls)
         self.Specs = SpecSetMeta("Specs", (SpecSet,), points)
         self.Impl = SpecSetMeta("Impl", (self.Specs,), impls)
         self.points = [getattr(self.Specs, sp["name"]) for sp in self.desc["specs"]]
+        for sp in self.desc["specs"]:
+            for pat in sp.get("filters") or []:
+                filters.add_filter(getattr(self.Specs, sp["name"]), pat)
 
     def shlex_key(self, cmd):
         import shlex
@@ -309,6 +421,21 @@ class World(object):
 
     def impl_for(self, sp, impls):
         t, Ctx, world = sp["t"], self.Ctx, self
+        if t in ("ffile", "fcmd", "fds"):
+            after = [self.point_objs[sp["after"]]] if sp.get("after") else []
+            if t == "ffile":
+                self.put(sp["path"], file_bytes(sp["lines"], "\n", True) if sp["lines"] else b"")
+                return simple_file(sp["path"], save_as=sp["save_as"], context=Ctx, deps=after)
+            if t == "fcmd":
+                self.outputs[self.shlex_key(sp["cmd"])] = ("fail", "boom-" + sp["name"]) if sp["fail"] else ("ok", 0, sp["out"])
+                return simple_command(sp["cmd"], save_as=sp["save_as"], context=Ctx, deps=after)
+
+            # no dependency at all: a sub-graph of its own for dr.run_all; the provider still knows the collecting context
+            @datasource()
+            def fds(broker):
+                return DatasourceProvider(list(sp["lines"]), sp["rel"], save_as=sp["save_as"], ctx=world.ctx,
+                                          cleaner=broker.get("cleaner"))
+            return fds
         if t in ("file", "first"):
             f = sp["file"]
             self.put(f["path"], file_bytes(f["lines"], f["eol"], f["trail"]))
@@ -422,6 +549,9 @@ class World(object):
         broker = dr.Broker()
         ctx = self.Ctx(root=self.src)
         broker[self.Ctx] = ctx
+        self.ctx = ctx
+        if self.frame:
+            broker["cleaner"] = self.cleaner
         pool = ThreadPoolExecutor(max_workers=self.pool) if self.pool else None
         h = Hydration(self.out, ctx, pool=pool)
         persister = h.make_persister(set(self.points))
@@ -433,7 +563,15 @@ class World(object):
             persister(c, b)
         broker.add_observer(recording)
         try:
-            dr.run(self.points, broker)
+            if self.frame:
+                # as insights.collect does: every sub-graph in turn, ONE broker, one persister observer
+                graph = {}
+                for c in self.points:
+                    graph.update(dr.get_dependency_graph(c))
+                self.subgraphs = len(list(dr.get_subgraphs(graph)))
+                dr.run_all(components=graph, broker=broker)
+            else:
+                dr.run(self.points, broker)
         finally:
             if pool:
                 pool.shutdown(wait=True)
@@ -450,7 +588,7 @@ def user_saveas_rule(factory, s):
     """the documented normalisation of a user-supplied save_as (doc strings of the spec factories)"""
     if not s:
         return None
-    if factory in ("file", "first", "rawfile"):
+    if factory in ("file", "first", "rawfile", "ffile"):
         r = s.lstrip("/")
     elif factory in ("glob", "foreach_collect"):
         r = s.lstrip("/")
@@ -527,6 +665,23 @@ def observe_before(w):
         obs.append({"point": point, "name": dr.get_name(point), "sp": sp,
                     "mode": "n" if v is None else ("m" if isinstance(v, list) else "s"),
                     "recorded": recorded, "elems": elems})
+    if w.desc.get("frame"):
+        # a destination whose parent is a FILE written before, or which is a DIRECTORY created before, cannot be
+        # opened: that writer fails (whoever comes second in the persist order) and the first one's data stays
+        files, dirs = set(), set()
+        for o in obs:
+            for e in o["elems"]:
+                e["writeerr"] = False
+                if not_collected(w.desc, e):
+                    continue
+                loc = expected_location(e["kind"], e["rel"], e["save_as"])
+                parts = loc.split("/")
+                prefixes = set("/".join(parts[:i]) for i in range(1, len(parts)))
+                if loc in dirs or prefixes & files:
+                    e["fail"] = e["writeerr"] = True
+                else:
+                    files.add(loc)
+                    dirs |= prefixes
     return obs
 
 
@@ -541,6 +696,8 @@ def not_collected(desc, e):
 
 def elem_fail_flags(sp):
     t = sp["t"]
+    if t in ("ffile", "fcmd", "fds"):
+        return [bool(sp.get("fail")) or sp["mode"] == "clean"]
     if t in ("cmd", "rawcmd", "cmdargs"):
         return [sp["fail"]]
     if t in ("foreach", "ccmd", "cfile"):
@@ -766,16 +923,28 @@ def _run_world(w, desc, patterns, fail, count):
             failed_tokens.append(sp["path"])
         elif sp["t"] == "raise":
             failed_tokens.append(sp["token"])
-        elif any(elem_fail_flags(sp)):
+        elif (sp.get("fail") if sp["t"] in ("ffile", "fcmd", "fds") else any(elem_fail_flags(sp))):
             failed_tokens.append("boom-" + sp["name"])
         for tok in failed_tokens:
             if doc is None or not any(e and tok in e for e in doc["errors"]):
                 fail("a failed component was not persisted with its error (%s, looked for %r in the document's errors)" % (sp["t"], tok),
                      _case(desc, spec=sp["name"]), None)
 
-    # ---- hydrate the intact archive through the public entry point
+    # a component NONE of whose elements could be serialized is persisted with its errors ONLY
+    for o in obs:
+        doc = docs[o["name"]]
+        if o["elems"] and all(not_collected(desc, e) for e in o["elems"]):
+            if doc is None or not doc["errors"] or doc["results"]:
+                fail("a component whose serialization failed is not persisted with its errors only: document %s"
+                     % (None if doc is None else {"errors": len(doc["errors"]), "results": doc["results"]}),
+                     _case(desc, spec=o["sp"]["name"]), None)
+
+    if desc.get("frame"):
+        frame_counts(desc, obs, count, w)
+
+    # ---- hydrate the intact archive (public entry point; the failure-frame archives: Hydration.hydrate directly)
     lines.append("snap"); impl.append("ok"); keep.append(False)
-    broker, err = hydrate_archive(w.out, True)
+    broker, err = hydrate_archive(w.out, not desc.get("frame"))
     if err:
         fail("loading the intact archive raised / chose the wrong context: " + err, _case(desc), None)
         return lines, impl, keep
@@ -800,6 +969,8 @@ def _run_world(w, desc, patterns, fail, count):
             # location
             if sp["t"] in ("ds", "dsmulti"):
                 usa = (sp["elem"] if sp["t"] == "ds" else sp["elems"][e["idx"]])["save_as"]
+            elif sp["t"] == "fds":
+                usa = sp["save_as"]
             elif "save_as" in sp:
                 usa = user_saveas_rule(sp["t"], sp["save_as"])
             else:
@@ -924,7 +1095,7 @@ def add_hydrate_answers(w, obs, broker, lines, impl, keep, store):
         v = broker.get(o["point"])
         n = max(1, len(o["elems"]))
         for j in range(n):
-            lines.append("get\t%s\t%d" % (enc(o["name"]), j))
+            lines.append("get\t%s\t%d\t%s" % (enc(o["name"]), j, ";".join(enc(x) for x in (o["sp"].get("filters") or [])) or "-"))
             keep.append(True)
             if v is None:
                 impl.append("absent")
@@ -1102,7 +1273,7 @@ def run(chk):
     logging.disable(logging.CRITICAL)
     rng = chk.rng
     quick = chk.tier == "quick"
-    n_worlds = 300 if quick else 4000
+    n_worlds = 240 if quick else 4000
     n_text = 600 if quick else 20000
     chk.rule = ("archives of 2-6 specs over every spec factory / provider kind (text, raw, first_file, glob, foreach_collect, "
                 "command, command_with_args, foreach_execute, container command/file, datasource single/multi, failing "
@@ -1113,7 +1284,11 @@ def run(chk):
                 "k in 1..4, with the first element of multi-output specs 200 KB / 8 KB larger or answering 30 ms late, and compared with a "
                 "serial collection of the same specs; then 1 intact "
                 "+ 3 corrupted hydrations per archive (delete, truncate, garbage, unknown name, directory, bad UTF-8, wrong "
-                "shapes, data file removed; sparse, dense and total patterns); non-trivial = the case's canonical key is new")
+                "shapes, data file removed; sparse, dense and total patterns); plus failure-frame archives: 2-6 components under a HostContext "
+                "with a cleaner, persisted by dr.run_all over the sub-graphs of one broker, destinations shared at random (same file through "
+                "two registry points with different filters, same save_as), a random subset failing at serialization (empty, empty after "
+                "filtering, empty after cleaning, CalledProcessError from load, destination that cannot be opened), order forced by "
+                "priorities / dependencies or left to the engine; non-trivial = the case's canonical key is new")
     chk.assumptions = ["json, the UTF-8 codec, the file system and cp are not modelled (a meta_data file is classified by the harness as "
                        "unreadable / not JSON / wrong shape / document before the model sees it)",
                        "content that is not valid Unicode (lone surrogates from surrogateescape) is outside the property's quantifier and the model",
@@ -1162,6 +1337,18 @@ def run(chk):
         if wi < 2:
             chk.sample({"archive": [dict((k, v) for k, v in sp.items() if k in ("t", "save_as", "cmd", "pattern")) for sp in desc["specs"]],
                         "host": desc["host"], "corruptions": [[c["cls"] for c in p] for p in pats]})
+    # ---- failure-frame archives: failing writers next to successful ones, shared destinations, run_all
+    n_frame = 150 if quick else 3000
+    for wi in range(n_frame):
+        desc = gen_frame_world(rng, 100000 + wi)
+        pats = gen_patterns(rng, len(desc["specs"]), 1)
+        ls, im, kp = run_world(desc, pats, fail, chk.count)
+        all_lines += ls; all_impl += im; all_keep += kp
+        all_cases += [("frame", wi, l.split("\t")[0]) for l in ls]
+        chk.case(("frame", json.dumps(desc, sort_keys=True)), True)
+        if wi < 1:
+            chk.sample({"failure-frame archive": [dict((k, v) for k, v in sp.items() if k in ("t", "mode", "save_as", "path", "filters", "after", "prio"))
+                                                  for sp in desc["specs"]]})
     model = run_driver("C11", all_lines)
     cases = [c for c, k in zip(all_cases, all_keep) if k]
     chk.compare("archive: documents, loaded providers, tolerance", cases,
